@@ -404,8 +404,11 @@ impl Exec {
                 return Err(format!("edge to cell {} which is not stored", i));
             }
             let n = st.cell_value(i);
-            if n.variable == 0 || n.variable > 64 {
-                return Err(format!("variable {} outside 1..=64", n.variable));
+            if n.variable > 64 {
+                return Err("novalue".into()); // beyond the sampled assignments: no verdict
+            }
+            if n.variable == 0 {
+                return Err(format!("cell {} has variable 0", i));
             }
             cur = if (e >> (n.variable - 1)) & 1 == 1 { n.high } else { n.low };
         }
@@ -515,6 +518,7 @@ impl Exec {
             };
             let got = match self.eval_at(r, e) {
                 Ok(g) => g,
+                Err(m) if m == "novalue" => return,
                 Err(m) => {
                     let mut ps: Vec<&'static str> = props.to_vec();
                     for extra in ["C04", "C01"] {
